@@ -1394,6 +1394,24 @@ impl Scenario for C09 {
                 });
             }
             let (writer, prefix) = draw_writer(&mut sm);
+            // stale `length` members that coincide with a writer position:
+            // the end position of the message, its own true size, the
+            // running total without the prefix
+            {
+                let mut before = 0usize;
+                for v in values.iter_mut() {
+                    let own = spec_of(v).len();
+                    if let Value::Msg(SpecMessage::Control { length, .. }) = v {
+                        match wl.below(6) {
+                            0 => *length = (prefix.len() + before + own) as u16,
+                            1 => *length = (before + own) as u16,
+                            2 => *length = (prefix.len() + before) as u16,
+                            _ => {}
+                        }
+                    }
+                    before += own;
+                }
+            }
             if prefix.len() >= 65_532 {
                 ctx.obs.count("probe:prefix-at-or-beyond-64k");
             }
